@@ -74,14 +74,20 @@ def to_cfg(d, pc, seed):
 
 def work(tier, seed):
     ds = configs(tier, seed)
+    ds1 = {json.dumps(d, sort_keys=True) for d in configs("quick", seed)}  # <= 1 deviation
     units = []
     i = 0
     for d in ds:
+        one_dev = json.dumps(d, sort_keys=True) in ds1
         for pi, pc in enumerate(PCS):
             for backend in ("eager", "aot_eager"):
                 for mode in (False, True, None):
                     i += 1
                     if tier == "quick" and (i + seed) % 15 != 0:
+                        continue
+                    # thorough: the complete backend x shape-mode product for all <= 1-deviation configurations; the
+                    # 2-deviation configurations run Shampoo/eager/static and SOAP-QR/aot_eager/auto (about 12 min on 16 cores)
+                    if tier == "thorough" and not one_dev and (pi, backend, mode) not in ((0, "eager", False), (2, "aot_eager", None)):
                         continue
                     units.append({"cfg": to_cfg(d, pc, seed), "backend": backend, "mode": mode})
     # several parameter groups whose boolean options differ (one compiled step per optimizer, flags passed per group)
